@@ -1,7 +1,7 @@
 (* C07: (1) the cotangents a reverse rule returns, TOGETHER, are the transposed total derivative of the solution map (all parameter slots moving at
    once); (2) a reverse sweep over a load history on ONE Objective (model/M_C07_Hist.v) returns the adjoint of the chained implicit-function
-   tangents -- for nonlinear_solve_with_state whatever objective.p holds, for nonlinear_solve as long as the other slots of objective.p are what
-   they were in the forward pass; (3) without that the design rule is refuted (load stepping through objective.p). *)
+   tangents -- whatever objective.p holds when a rule runs, for both entry points (since /repo 42a60d0 nonlinear_solve_b re-establishes the saved Params too);
+   (3) the rule shape before that fix (design slot only) is refuted under load stepping through objective.p (finding C07-DESIGN-RESTORE, fixed). *)
 From Coq Require Import Reals Lra List Bool Arith String Lia.
 From OV.model Require Import M_C07_Refs M_C19_CFG M_C07_Rule M_C07_Hist.
 From OV.gen Require Import Refs_NonlinearSolve CFG_drivers.
@@ -210,34 +210,29 @@ Section History.
                           rule_nonlinear_solve_with_state_b rule_nonlinear_solve_b restore_nonlinear_solve_with_state_b restore_nonlinear_solve_b
                           objective_hessian_vec_is_jvp_of_grad_x_at_self_p).
 
-  (* tangent data of one solve: direction of every parameter slot, tangent of the solution, and (nonlinear_solve only) objective.p as it was when the
-     forward pass of this solve ran *)
-  Record tstep := { t_dp : nat -> P; t_dU : V; t_pobj : Par P }.
+  (* tangent data of one solve: direction of every parameter slot, tangent of the solution *)
+  Record tstep := { t_dp : nat -> P; t_dU : V }.
 
   Definition expected_of (b : bstep) : list slotdesc := if b_state V P Th b then expected_slots_with_state else [SlotVJP 2 99].
-  Definition pf_of (bt : bstep * tstep) : Par P := p_fwd V P Th (fst bt) (t_pobj (snd bt)).
+  Definition pf_of (bt : bstep * tstep) : Par P := p_fwd V P Th (fst bt).
   Definition head_dU (dU0 : V) (l : list (bstep * tstep)) : V := match l with [] => dU0 | bt :: _ => t_dU (snd bt) end.
-  (* objective.p after the reverse rule of b ran *)
-  Definition new_p (pcur : Par P) (b : bstep) : Par P :=
-    if b_state V P Th b then e_psaved V P (b_env V P Th b) else upd P pcur 2 (e_dsaved V P (b_env V P Th b)).
-
-  (* what is asked of one solve, given objective.p (pcur) at the moment its reverse rule runs, the direction dth of the global parameters and the
-     tangent dUprev of the previous solution:
-     - nonlinear_solve only: the slots of objective.p other than the design slot are what they were when the forward pass ran;
+  (* what is asked of one solve, given the direction dth of the global parameters and the tangent dUprev of the previous solution -- NOTHING about
+     objective.p at the moment its reverse rule runs:
+     - nonlinear_solve only: the saved Params carry a design (they do: the forward rule puts its argument there, fwd_rule_saves_params_run_with);
      - at the forward solution and parameters: jvp of the gradient linear and self-adjoint, CG returns a minimiser for every right-hand side;
      - t_dp k is the tangent of the value of slot k (b_At k, b_Bt k are transposed derivatives: JAX's part of the chain);
      - t_dU is the implicit-function tangent of the solution for these slot directions *)
-  Definition step_ok (pcur : Par P) (dth : Th) (dUprev : V) (bt : bstep * tstep) : Prop :=
+  Definition step_ok (dth : Th) (dUprev : V) (bt : bstep * tstep) : Prop :=
     let b := fst bt in let t := snd bt in
-    (b_state V P Th b = false -> List.length (t_pobj t) = 6%nat /\ List.length pcur = 6%nat /\ agree_off2 P pcur (t_pobj t))
+    (b_state V P Th b = false -> exists q0, nth 2 (pf_of bt) None = Some q0)
     /\ (forall v, hyps (pf_of bt) (e_Uu V P (b_env V P Th b)) v)
     /\ (forall k c, ipP (t_dp t k) c = ipT dth (b_At V P Th b k c) + ipV dUprev (b_Bt V P Th b k c))
     /\ tot (pf_of bt) (b_env V P Th b) (expected_of b) (t_dp t) (t_dU t).
 
-  Fixpoint hist_ok (pcur : Par P) (dth : Th) (dU0 : V) (l : list (bstep * tstep)) : Prop :=
+  Fixpoint hist_ok (dth : Th) (dU0 : V) (l : list (bstep * tstep)) : Prop :=
     match l with
     | [] => True
-    | bt :: l' => step_ok pcur dth (head_dU dU0 l') bt /\ hist_ok (new_p pcur (fst bt)) dth dU0 l'
+    | bt :: l' => step_ok dth (head_dU dU0 l') bt /\ hist_ok dth dU0 l'
     end.
 
   Fixpoint vsum (l : list (bstep * tstep)) : R :=
@@ -260,20 +255,18 @@ Section History.
     - cbn. intros [E|[E|[E|[E|[E|[]]]]]]; discriminate.
   Qed.
 
-  Lemma resolvable_design (e : renv V P) (pobj : Par P) : List.length pobj = 6%nat ->
-    resolvable V P objective_vjp_closures (upd P pobj 2 (e_dsaved V P e)) e [SlotVJP 2 99].
+  Lemma resolvable_design (e : renv V P) q0 : nth 2 (e_psaved V P e) None = Some q0 ->
+    resolvable V P objective_vjp_closures (e_psaved V P e) e [SlotVJP 2 99].
   Proof.
-    intros Hl. destruct tables_facts as (_ & _ & _ & _ & Hfind). split.
-    - intros k g [E|[]] _. inversion E; subst. split; [|apply Hfind; cbn; tauto].
-      exists (e_dsaved V P e). rewrite upd_get by (try exact Hl; lia). reflexivity.
+    intros Hq. destruct tables_facts as (_ & _ & _ & _ & Hfind). split.
+    - intros k g [E|[]] _. inversion E; subst. split; [|apply Hfind; cbn; tauto]. exists q0. exact Hq.
     - intros [E|[]]. discriminate.
   Qed.
 
   (* one step of the sweep *)
   Lemma back_step_adjoint (st : sstate) (dth : Th) (dUprev : V) (bt : bstep * tstep) :
-    step_ok (s_pobj V P Th st) dth dUprev bt ->
+    step_ok dth dUprev bt ->
     exists st', bstep_of st (fst bt) = Some st'
-      /\ s_pobj V P Th st' = new_p (s_pobj V P Th st) (fst bt)
       /\ ipT dth (s_thbar V P Th st') + ipV dUprev (s_ubar V P Th st')
          = ipT dth (s_thbar V P Th st) + ipV (t_dU (snd bt)) (s_ubar V P Th st) + ipV (t_dU (snd bt)) (b_vout V P Th (fst bt)).
   Proof.
@@ -285,17 +278,15 @@ Section History.
     set (rk := if b_state V P Th b then restore_nonlinear_solve_with_state_b else restore_nonlinear_solve_b).
     set (pf := pf_of (b, t)) in *.
     assert (Hgd : forall g, guard_present V P (b_env V P Th b) g = guard_present V P e g) by (intros g; reflexivity).
-    assert (Hpu : p_used V P rk e = pf /\ p_used V P rk e = new_p (s_pobj V P Th st) b
+    assert (Hpu : p_used V P rk e = pf
                   /\ revrule_ok r (expected_of b) = true /\ resolvable V P objective_vjp_closures pf e (expected_of b)).
-    { unfold rk, r, pf, pf_of, p_fwd, new_p, expected_of. cbn [fst snd]. destruct (b_state V P Th b) eqn:Eb.
-      - rewrite Hrs. cbn [p_used]. split; [reflexivity|]. split; [reflexivity|]. split; [exact Hrule_s|].
+    { unfold rk, r, pf, pf_of, p_fwd, expected_of in *. cbn [fst snd] in *. destruct (b_state V P Th b) eqn:Eb.
+      - rewrite Hrs. cbn [p_used]. split; [reflexivity|]. split; [exact Hrule_s|].
         exact (resolvable_state e).
-      - destruct (Hdes eq_refl) as (Hl & Hlc & Hag). rewrite Hrd. cbn [p_used].
-        assert (E : upd P (e_pcur V P e) 2 (e_dsaved V P e) = upd P (t_pobj t) 2 (e_dsaved V P (b_env V P Th b)))
-          by (apply upd_slot_agree; [lia|exact Hag]).
-        split; [exact E|]. split; [reflexivity|]. split; [exact Hrule_d|].
-        exact (resolvable_design e (t_pobj t) Hl). }
-    destruct Hpu as (Hpu & Hnew & Hrule & Hres).
+      - destruct (Hdes eq_refl) as (q0 & Hq). rewrite Hrd. cbn [p_used].
+        split; [reflexivity|]. split; [exact Hrule_d|].
+        exact (resolvable_design e q0 Hq). }
+    destruct Hpu as (Hpu & Hrule & Hres).
     assert (Htan' : total_tangent V P ipV gradx jvp_at deriv pf e (expected_of b) (t_dp t) (t_dU t)).
     { intros w. rewrite <- (slot_sum_ext V P (b_env V P Th b) e _ _ Hgd). exact (Htan w). }
     destruct (rule_total V P vadd vscale ipV ipP gradx vjp_at jvp_at deriv cg vzero precond ip_sym ip_lin vjp_transpose
@@ -307,7 +298,6 @@ Section History.
     exists {| s_pobj := p_used V P rk e; s_ubar := ub; s_thbar := th |}.
     split.
     { unfold back_step. fold e. fold r. fold rk. rewrite Hhv, Hslots, Hth, Hub. reflexivity. }
-    split; [exact Hnew|].
     cbn [s_thbar s_ubar]. rewrite Eth, Eub, H0, ip_zero.
     rewrite (wsum_add P (fun k c => ipT dth (b_At V P Th b k c)) (fun k c => ipV dUprev (b_Bt V P Th b k c)) _ Hdp) in Hpair.
     assert (Ev : ipV (e_v V P e) (t_dU t) = ipV (t_dU t) (b_vout V P Th b) + ipV (t_dU t) (s_ubar V P Th st)).
@@ -315,9 +305,9 @@ Section History.
     lra.
   Qed.
 
-  (* the sweep over the whole history *)
+  (* the sweep over the whole history: any mix of the two entry points, any objective.p at the start *)
   Theorem history_adjoint (dth : Th) (dU0 : V) : forall (l : list (bstep * tstep)) (st0 : sstate),
-    hist_ok (s_pobj V P Th st0) dth dU0 l ->
+    hist_ok dth dU0 l ->
     exists st, sweep_of st0 (map fst l) = Some st
       /\ ipT dth (s_thbar V P Th st) + ipV dU0 (s_ubar V P Th st)
          = ipT dth (s_thbar V P Th st0) + ipV (head_dU dU0 l) (s_ubar V P Th st0) + vsum l.
@@ -325,59 +315,50 @@ Section History.
     induction l as [|bt l IH]; intros st0 Hok.
     - exists st0. split; [reflexivity|cbn; lra].
     - destruct Hok as [Hs Hr].
-      destruct (back_step_adjoint st0 dth (head_dU dU0 l) bt Hs) as (st1 & Hb & Hp & E1).
-      rewrite <- Hp in Hr. destruct (IH st1 Hr) as (st & Hsw & E).
+      destruct (back_step_adjoint st0 dth (head_dU dU0 l) bt Hs) as (st1 & Hb & E1).
+      destruct (IH st1 Hr) as (st & Hsw & E).
       exists st. split; [cbn [map sweep]; rewrite Hb; exact Hsw|].
       cbn [vsum head_dU]. lra.
   Qed.
 
-  (* histories of nonlinear_solve_with_state: nothing is asked of objective.p *)
-  Lemma hist_ok_state_indep dth dU0 : forall l p p', Forall (fun bt => b_state V P Th (fst bt) = true) l -> hist_ok p dth dU0 l -> hist_ok p' dth dU0 l.
-  Proof.
-    induction l as [|bt l IH]; intros p p' Hf Hok; [exact I|].
-    inversion Hf as [|? ? Hb Hf']; subst. destruct Hok as [Hs Hr]. split.
-    - destruct Hs as (_ & Hrest). split; [intros Hc; rewrite Hb in Hc; discriminate|exact Hrest].
-    - unfold new_p in *. rewrite Hb in *. exact Hr.
-  Qed.
-
-  Theorem with_state_history_adjoint (dth : Th) (dU0 : V) (l : list (bstep * tstep)) (st0 : sstate) (pany : Par P) :
-    Forall (fun bt => b_state V P Th (fst bt) = true) l -> hist_ok pany dth dU0 l ->
+  (* histories of nonlinear_solve_with_state (kept as a named special case) *)
+  Theorem with_state_history_adjoint (dth : Th) (dU0 : V) (l : list (bstep * tstep)) (st0 : sstate) :
+    Forall (fun bt => b_state V P Th (fst bt) = true) l -> hist_ok dth dU0 l ->
     exists st, sweep_of st0 (map fst l) = Some st
       /\ ipT dth (s_thbar V P Th st) + ipV dU0 (s_ubar V P Th st)
          = ipT dth (s_thbar V P Th st0) + ipV (head_dU dU0 l) (s_ubar V P Th st0) + vsum l.
-  Proof. intros Hf Hok. apply history_adjoint. exact (hist_ok_state_indep dth dU0 l pany _ Hf Hok). Qed.
+  Proof. intros _ Hok. apply history_adjoint. exact Hok. Qed.
 
-  (* histories of nonlinear_solve whose forward passes all ran with the same slots 0,1,3,4,5 of objective.p (pobj0): the reverse rules keep them *)
-  Definition design_step_ok (pobj0 : Par P) (dth : Th) (dUprev : V) (bt : bstep * tstep) : Prop :=
-    b_state V P Th (fst bt) = false /\ List.length (t_pobj (snd bt)) = 6%nat /\ agree_off2 P pobj0 (t_pobj (snd bt))
+  (* histories of nonlinear_solve: NO hypothesis on objective.p (neither at the start of the sweep nor between the forward passes); every solve is asked
+     what a with-state solve is asked, at the Params its forward rule saved *)
+  Definition design_step_ok (dth : Th) (dUprev : V) (bt : bstep * tstep) : Prop :=
+    b_state V P Th (fst bt) = false /\ (exists q0, nth 2 (pf_of bt) None = Some q0)
     /\ (forall v, hyps (pf_of bt) (e_Uu V P (b_env V P Th (fst bt))) v)
     /\ (forall k c, ipP (t_dp (snd bt) k) c = ipT dth (b_At V P Th (fst bt) k c) + ipV dUprev (b_Bt V P Th (fst bt) k c))
     /\ tot (pf_of bt) (b_env V P Th (fst bt)) (expected_of (fst bt)) (t_dp (snd bt)) (t_dU (snd bt)).
-  Fixpoint design_hist_ok (pobj0 : Par P) (dth : Th) (dU0 : V) (l : list (bstep * tstep)) : Prop :=
-    match l with [] => True | bt :: l' => design_step_ok pobj0 dth (head_dU dU0 l') bt /\ design_hist_ok pobj0 dth dU0 l' end.
+  Fixpoint design_hist_ok (dth : Th) (dU0 : V) (l : list (bstep * tstep)) : Prop :=
+    match l with [] => True | bt :: l' => design_step_ok dth (head_dU dU0 l') bt /\ design_hist_ok dth dU0 l' end.
 
-  Lemma design_hist_ok_hist_ok pobj0 dth dU0 : forall l pcur, List.length pcur = 6%nat -> agree_off2 P pcur pobj0 ->
-    design_hist_ok pobj0 dth dU0 l -> hist_ok pcur dth dU0 l.
+  Lemma design_hist_ok_hist_ok dth dU0 : forall l, design_hist_ok dth dU0 l -> hist_ok dth dU0 l.
   Proof.
-    induction l as [|bt l IH]; intros pcur Hl Ha Hd; [exact I|].
-    destruct Hd as [(Hb & Hlt & Hag & Hrest) Hd']. split.
-    - split; [|exact Hrest]. intros _. split; [exact Hlt|]. split; [exact Hl|].
-      intros j Hj Hn. rewrite (Ha j Hj Hn). apply Hag; assumption.
-    - unfold new_p. rewrite Hb. apply IH; [apply upd_length; [exact Hl|lia]|apply agree_off2_upd; assumption|exact Hd'].
+    induction l as [|bt l IH]; intros Hd; [exact I|].
+    destruct Hd as [(Hb & Hq & Hrest) Hd']. split; [|exact (IH Hd')].
+    split; [intros _; exact Hq|exact Hrest].
   Qed.
 
-  Theorem design_history_adjoint (pobj0 : Par P) (dth : Th) (dU0 : V) (l : list (bstep * tstep)) (st0 : sstate) :
-    List.length (s_pobj V P Th st0) = 6%nat -> agree_off2 P (s_pobj V P Th st0) pobj0 -> design_hist_ok pobj0 dth dU0 l ->
+  Theorem design_history_adjoint (dth : Th) (dU0 : V) (l : list (bstep * tstep)) (st0 : sstate) :
+    design_hist_ok dth dU0 l ->
     exists st, sweep_of st0 (map fst l) = Some st
       /\ ipT dth (s_thbar V P Th st) + ipV dU0 (s_ubar V P Th st)
          = ipT dth (s_thbar V P Th st0) + ipV (head_dU dU0 l) (s_ubar V P Th st0) + vsum l.
-  Proof. intros Hl Ha Hd. apply history_adjoint. exact (design_hist_ok_hist_ok pobj0 dth dU0 l _ Hl Ha Hd). Qed.
+  Proof. intros Hd. apply history_adjoint. exact (design_hist_ok_hist_ok dth dU0 l Hd). Qed.
 End History.
 
-(* ------------------------------------------------------------------ refutation: load stepping through objective.p with nonlinear_solve.
+(* ------------------------------------------------------------------ refutation of the rule shape BEFORE /repo 42a60d0 (RestoreSlot 2: the reverse rule
+   re-established the design slot only; finding C07-DESIGN-RESTORE, fixed): load stepping through objective.p with nonlinear_solve.
    V = P = R, gradient x - bc * design (the design multiplies the load), Hessian 1.  The forward pass of the solve ran while objective.p held
-   bc = 1; when its reverse rule runs objective.p holds bc = 2 (a later load step assigned it).  The rule re-establishes the design slot only,
-   so it returns the cotangent for bc = 2: <v, u> = 1 but <dp, c> = 2 for the implicit-function tangent u at the forward parameters. *)
+   bc = 1; when its reverse rule runs objective.p holds bc = 2 (a later load step assigned it).  With RestoreSlot 2 the rule returns the cotangent for
+   bc = 2: <v, u> = 1 but <dp, c> = 2 for the implicit-function tangent u at the forward parameters.  (With the extracted RestoreSaved: design_rule_ift.) *)
 Definition r_gradx (x : R) (p : Par R) : R := x - slotv p 0 * slotv p 2.
 Definition r_env : renv R R :=
   {| e_pcur := [Some 2; None; Some 5; None; None; None]; e_psaved := []; e_dsaved := 3; e_Uu := 0; e_v := 1;
@@ -399,7 +380,7 @@ Theorem design_rule_load_stepping_refuted :
   /\ (forall p x v, solve_hyps R R Rplus Rmult Rmult r_gradx i_jvp i_cg 0 p x v)
   /\ List.length r_pobj = 6%nat
   /\ (forall j, (j < 6)%nat -> j <> 0%nat -> j <> 2%nat -> nth j (e_pcur R R r_env) None = nth j r_pobj None)
-  /\ let o := rule_out R R r_gradx i_vjp i_jvp i_cg 0 (fun z => z) objective_vjp_closures rule_nonlinear_solve_b restore_nonlinear_solve_b
+  /\ let o := rule_out R R r_gradx i_vjp i_jvp i_cg 0 (fun z => z) objective_vjp_closures rule_nonlinear_solve_b (RestoreSlot 2)
                 objective_hessian_vec_is_jvp_of_grad_x_at_self_p r_env in
      exists c dp u, snd o = [CotVal R c]
        /\ ift_tangent R R Rmult r_gradx i_jvp i_deriv (upd R r_pobj 2 (e_dsaved R R r_env)) (e_Uu R R r_env) 2 (e_dsaved R R r_env) dp u
@@ -412,7 +393,7 @@ Proof.
   split.
   { intros j Hj H0 H2. do 6 (destruct j as [|j]; [try reflexivity; congruence|]). lia. }
   intros o.
-  destruct (design_rule_ift R R Rplus Rmult Rmult Rmult r_gradx i_vjp i_jvp i_deriv i_cg 0 (fun z => z) Hsym Hlin Hvjp
+  destruct (design_rule_prefix_ift R R Rplus Rmult Rmult Rmult r_gradx i_vjp i_jvp i_deriv i_cg 0 (fun z => z) Hsym Hlin Hvjp
               r_env (e_pcur R R r_env) eq_refl (fun j _ _ => eq_refl) (r_hyps _ _ _)) as (_ & c & Hc & Hpair).
   (* at the parameters objective.p holds NOW the tangent for dp = 1 is u = 2, so c = 2 *)
   assert (Hc2 : 1 * 2 = 1 * c).
@@ -437,11 +418,11 @@ Section HistInstance.
   (* directions: slot 0 moves with theta (a dth), slot 1 with the previous tangent (s dUprev); tangent of the solution - j (dp0 + dp1) / h *)
   Definition hi_t (dth dUprev : R) : tstep R R :=
     {| t_dp := fun k => if Nat.eqb k 0 then a * dth else if Nat.eqb k 1 then s * dUprev else 0;
-       t_dU := - (j * (a * dth + s * dUprev)) / h; t_pobj := [] |}.
+       t_dU := - (j * (a * dth + s * dUprev)) / h |}.
 
   Example history_nonvacuous (dth b1 s1 x1 v1 b2 s2 x2 v2 : R) :
     let t1 := hi_t dth 0 in let t2 := hi_t dth (t_dU R R t1) in
-    hist_ok R R R Rplus Rmult Rmult Rmult Rmult (i_gradx h j) i_jvp i_deriv i_cg 0 [] dth 0
+    hist_ok R R R Rplus Rmult Rmult Rmult Rmult (i_gradx h j) i_jvp i_deriv i_cg 0 dth 0
       [(hi_step (hi_par b2 s2) x2 v2, t2); (hi_step (hi_par b1 s1) x1 v1, t1)].
   Proof.
     intros t1 t2. destruct (instance_hyps h j Hh) as (_ & _ & _ & Hhyp).
@@ -483,7 +464,9 @@ Qed.
 Definition fwd_tables_ok : bool :=
   match primal_params_nonlinear_solve with RestoreSlot 2 => true | _ => false end
   && match primal_params_nonlinear_solve_with_state with RestoreSaved => true | _ => false end
-  && equation_solve_assigns_objective_p.
+  && equation_solve_assigns_objective_p
+  && match fwd_saves_nonlinear_solve with RestoreSlot 2 => true | _ => false end
+  && match fwd_saves_nonlinear_solve_with_state with RestoreSaved => true | _ => false end.
 Theorem fwd_tables_resolve : fwd_tables_ok = true.
 Proof. vm_compute. reflexivity. Qed.
 
@@ -529,30 +512,58 @@ Proof.
   match goal with H : equation_solve_assigns_objective_p = true |- _ => rewrite H end. reflexivity.
 Qed.
 
-(* ... and those of the design-history theorem: two nonlinear_solve calls on an objective whose other slots are [b; st; _; -; -; -], designs a * theta *)
+(* ... and those of the design-history theorem: two nonlinear_solve calls whose saved Params are [b_i; st_i; d_i; -; -; -] (different loads), designs a * theta *)
 Section DesignHistInstance.
   Variables h j a : R.
   Hypothesis Hh : 0 < h.
-  Definition di_env (d x : R) : renv R R :=
-    {| e_pcur := []; e_psaved := []; e_dsaved := d; e_Uu := x; e_v := 0; e_jV := 0; e_jop := fun z => z; e_jpre := fun z => z; e_rad := 0 |}.
-  Definition di_step (d x v : R) : bstep R R R :=
-    {| b_state := false; b_env := di_env d x; b_vout := v; b_At := fun k c => if Nat.eqb k 2 then a * c else 0; b_Bt := fun _ _ => 0 |}.
-  Definition di_t (dth dold b st : R) : tstep R R :=
-    {| t_dp := fun k => if Nat.eqb k 2 then a * dth else 0; t_dU := - (j * (a * dth)) / h; t_pobj := [Some b; Some st; Some dold; None; None; None] |}.
+  Definition di_env (b st d x : R) : renv R R :=
+    {| e_pcur := []; e_psaved := [Some b; Some st; Some d; None; None; None]; e_dsaved := d; e_Uu := x; e_v := 0;
+       e_jV := 0; e_jop := fun z => z; e_jpre := fun z => z; e_rad := 0 |}.
+  Definition di_step (b st d x v : R) : bstep R R R :=
+    {| b_state := false; b_env := di_env b st d x; b_vout := v; b_At := fun k c => if Nat.eqb k 2 then a * c else 0; b_Bt := fun _ _ => 0 |}.
+  Definition di_t (dth : R) : tstep R R :=
+    {| t_dp := fun k => if Nat.eqb k 2 then a * dth else 0; t_dU := - (j * (a * dth)) / h |}.
 
-  Example design_history_nonvacuous (dth b st d1 x1 v1 d2 x2 v2 dold1 dold2 : R) :
-    design_hist_ok R R R Rplus Rmult Rmult Rmult Rmult (i_gradx h j) i_jvp i_deriv i_cg 0 [Some b; Some st; None; None; None; None] dth 0
-      [(di_step d2 x2 v2, di_t dth dold2 b st); (di_step d1 x1 v1, di_t dth dold1 b st)].
+  Example design_history_nonvacuous (dth b1 st1 d1 x1 v1 b2 st2 d2 x2 v2 : R) :
+    design_hist_ok R R R Rplus Rmult Rmult Rmult Rmult (i_gradx h j) i_jvp i_deriv i_cg 0 dth 0
+      [(di_step b2 st2 d2 x2 v2, di_t dth); (di_step b1 st1 d1 x1 v1, di_t dth)].
   Proof.
     destruct (instance_hyps h j Hh) as (_ & _ & _ & Hhyp).
-    assert (Hag : forall dold, agree_off2 R [Some b; Some st; None; None; None; None] [Some b; Some st; Some dold; None; None; None]).
-    { intros dold k Hk Hn. do 6 (destruct k as [|k]; [try reflexivity; congruence|]). lia. }
     cbn [design_hist_ok]. split; [|split; [|exact I]].
-    - unfold design_step_ok. cbn [fst snd head_dU]. split; [reflexivity|]. split; [reflexivity|]. split; [apply Hag|]. split; [intros v; apply Hhyp|]. split.
+    - unfold design_step_ok. cbn [fst snd head_dU]. split; [reflexivity|]. split; [exists d2; reflexivity|]. split; [intros v; apply Hhyp|]. split.
       + intros k c. unfold di_t, di_step. cbn [t_dp b_At b_Bt]. destruct (Nat.eqb k 2); ring.
       + intros w. unfold hess_op, i_jvp, i_gradx, slot_dir, i_deriv, slotv, upd, piu_apply. cbn. field. lra.
-    - unfold design_step_ok. cbn [fst snd head_dU]. split; [reflexivity|]. split; [reflexivity|]. split; [apply Hag|]. split; [intros v; apply Hhyp|]. split.
+    - unfold design_step_ok. cbn [fst snd head_dU]. split; [reflexivity|]. split; [exists d1; reflexivity|]. split; [intros v; apply Hhyp|]. split.
       + intros k c. unfold di_t, di_step. cbn [t_dp b_At b_Bt]. destruct (Nat.eqb k 2); ring.
       + intros w. unfold hess_op, i_jvp, i_gradx, slot_dir, i_deriv, slotv, upd, piu_apply. cbn. field. lra.
   Qed.
 End DesignHistInstance.
+
+(* both forward rules save EXACTLY the parameters their solve ran with (for nonlinear_solve: objective.p with the design slot := the argument, rebuilt after
+   the primal left objective.p = those very parameters), and for nonlinear_solve the saved Params carry the design -- what step_ok asks of a design step *)
+Lemma upd_upd (P : Type) (p : Par P) k d d' : List.length p = 6%nat -> (k < 6)%nat -> upd P (upd P p k d) k d' = upd P p k d'.
+Proof.
+  intros Hl Hk. do 7 (destruct p as [|? p]; try discriminate).
+  do 6 (destruct k as [|k]; [reflexivity|]). lia.
+Qed.
+
+Theorem fwd_rule_saves_params_run_with (V P : Type) (solve : V -> Par P -> V) (pobj : Par P) (u : V) (c : fcall P) : List.length pobj = 6%nat ->
+  let '(pobj', x, p, saved) := fwd_rule V P solve primal_params_nonlinear_solve primal_params_nonlinear_solve_with_state equation_solve_assigns_objective_p
+                                 fwd_saves_nonlinear_solve fwd_saves_nonlinear_solve_with_state pobj u c in
+  saved = p /\ pobj' = p /\ x = solve u p
+  /\ match c with FDesign _ d => p = upd P pobj 2 d /\ nth 2 saved None = Some d | FState _ q => p = q end.
+Proof.
+  intros Hl. pose proof fwd_tables_resolve as Ht. unfold fwd_tables_ok in Ht.
+  repeat (match goal with H : _ && _ = true |- _ => apply andb_prop in H; destruct H end).
+  assert (Hd : primal_params_nonlinear_solve = RestoreSlot 2)
+    by (destruct primal_params_nonlinear_solve as [|k|]; try discriminate; do 3 (destruct k as [|k]; try discriminate); reflexivity).
+  assert (Hf : fwd_saves_nonlinear_solve = RestoreSlot 2)
+    by (destruct fwd_saves_nonlinear_solve as [|k|]; try discriminate; do 3 (destruct k as [|k]; try discriminate); reflexivity).
+  assert (Hs : primal_params_nonlinear_solve_with_state = RestoreSaved) by (destruct primal_params_nonlinear_solve_with_state; try discriminate; reflexivity).
+  assert (Hfs : fwd_saves_nonlinear_solve_with_state = RestoreSaved) by (destruct fwd_saves_nonlinear_solve_with_state; try discriminate; reflexivity).
+  match goal with H : equation_solve_assigns_objective_p = true |- _ => rename H into Ha end.
+  unfold fwd_rule, fwd_call, fwd_saved. rewrite Hd, Hf, Hs, Hfs, Ha. destruct c as [d|q]; cbn [params_of].
+  - rewrite upd_upd by (try exact Hl; lia). split; [reflexivity|]. split; [reflexivity|]. split; [reflexivity|]. split; [reflexivity|].
+    rewrite upd_get by (try exact Hl; lia). reflexivity.
+  - split; [reflexivity|]. split; [reflexivity|]. split; reflexivity.
+Qed.
